@@ -33,9 +33,17 @@ REQUIRED = [
     "Pixman.Props.C03Frame.fill_frame",
     "Pixman.Props.C03Frame.glyphs_frame",
     "Pixman.Props.C03Frame.glyphs_mask_frame",
-    "Pixman.Props.C03Frame.trapezoid_frame_partial",
+    "Pixman.DrawFrame.TrapFrame.rasterizeTrapezoid_rows",
+    "Pixman.DrawFrame.TrapFrame.addTrapezoids_rows",
+    "Pixman.DrawFrame.TrapFrame.addTraps_rows",
+    "Pixman.DrawFrame.TrapFrame.addTriangles_rows",
+    "Pixman.DrawFrame.TrapFrame.realize_within",
+    "Pixman.DrawFrame.TrapFrame.realize_holds",
+    "Pixman.Props.C03Frame.trapezoid_frame",
+    "Pixman.Props.C03Frame.trapezoid_bytes_frame",
+    "Pixman.Props.C03Frame.trapezoid_frame_exact_region",
     "Pixman.Props.C03Frame.trapezoids_mask_frame",
-    "Pixman.Props.C03Frame.drawing_touches_only_region_partial",
+    "Pixman.Props.C03Frame.drawing_touches_only_region",
 ]
 
 
